@@ -251,11 +251,11 @@ def cases(rng, tier):
         forms = v6_forms(rng, ip, ln)
         for f in forms:
             w = wrap(rng, f)
-            if len(w) > 43:        # the constructor refuses longer inputs before looking at them: covered by the malformed stream
+            if len(w) > 43 and rng.random() < 0.8:   # longer inputs are refused unread (known finding F32): keep them rare
                 w = f
-            yield mk("v6s", w, [ip, ln] if len(w) <= 43 else None, near=len(w) > 43)
+            yield mk("v6s", w, [ip, ln])
         f = rng.choice(forms)
-        yield mk("v6c", f, [ip, ln] if len(f) <= 43 else None)
+        yield mk("v6c", f, [ip, ln])
         yield mk("v6i", ip, [ip, 128])
         for _ in range(8):
             yield mk("v6s", one_edit(rng, rng.choice(forms)), near=True)
@@ -272,6 +272,14 @@ def neighbours(case, rng):
         return
     for _ in range(400):
         yield mk(case["op"], one_edit(rng, case["arg"]), near=True)
+
+
+def known_id(case, failure):
+    """F32: the 43-character guard of IPv6Obj is applied to the raw input."""
+    if case["op"] in ("v6s", "v6c") and len(case["arg"]) > 43 and failure.startswith("valid ") \
+            and failure.endswith("rejected with err:RequirementFailure"):
+        return "F32"
+    return None
 
 
 def nontrivial(case):
